@@ -281,6 +281,9 @@ def events (x : St) (l : RawLine) : Except String (St × List Ev) :=
       else if op == "store" then
         if fn.startsWith "new" then .ok ({ x with s := Sig.init (natOf arg) }, []) else .ok (x, [.stConc g (natOf arg)])
       else .ok (x, [])
+    else if fn == "Manager.Len" && op == "ret:Len" && isDisp s g && s.dph == .sawRoom then
+      -- no bound queue reported a length inside this Manager.Len(): the sum is over zero queues
+      .ok (x, [.dLen g 0])
     else if isQueueObj obj && (op.startsWith "ret:") then
       let q := x.queue.getD obj
       let x := { x with queue := some q }
@@ -349,6 +352,10 @@ def events (x : St) (l : RawLine) : Except String (St × List Ev) :=
       else if op == "store" then
         if fn.startsWith "new" then .ok ({ x with s := Wake.init (natOf arg) }, []) else .ok (x, [.stConc g (natOf arg)])
       else .ok (x, [])
+    else if fn == "Manager.Len" && op == "ret:Len" && isDisp s g && s.dph == .sawRoom then
+      .ok (x, [.dLen g 0])
+    else if fn == "Manager.Len" && op == "ret:Len" && s.wph g == .sawStatus Wake.running then
+      .ok (x, [.wLen g 0])
     else if isQueueObj obj && (op.startsWith "ret:") then
       let q := x.queue.getD obj
       let x := { x with queue := some q }
